@@ -54,12 +54,12 @@ theorem drain_inv (h : Heap) (D : Nat) (hD : 1 ≤ D) (fuel : Nat) :
       have : drain h fuel D (n + 1) s = s := by simp [drain, hsp]
       rw [this]; exact ⟨inv, hsp⟩
     | cons x rest =>
-      have hd : drain h fuel D (n + 1) s = drain h fuel D n (markEdge h fuel D { s with spill := rest } ⟨true, x⟩) := by
+      have hd : drain h fuel D (n + 1) s = drain h fuel D n (markEdge h fuel D { s with spill := rest } ⟨true, x, false⟩) := by
         simp [drain, hsp]
       rw [hd]
       have hwpop : weight h { s with spill := rest } = weight h s := rfl
       have hxr : (h.get x).isSome → Reachable h x := fun c => inv.soundSpill x (by simp [hsp]) c
-      obtain ⟨sp, _, mk, _, phs⟩ := markEdge_spec ih D { s with spill := rest } ⟨true, x⟩ inv.stuck (by rw [hwpop]; exact hw) hxr
+      obtain ⟨sp, _, mk, _, phs⟩ := markEdge_spec ih D { s with spill := rest } ⟨true, x, false⟩ inv.stuck (by rw [hwpop]; exact hw) hxr
       have hmk := mk (Or.inr hD)
       have hph := phs (Or.inr hD)
       apply ihn
